@@ -190,5 +190,83 @@ theorem specFieldsOf_sig (attrs : Attr → PyVal) (hok : ∀ a, AttrOK a (attrs 
                   exact hx
             | tail _ hf => exact specFieldsOf_sig attrs hok rest fs' hr f hf s hs
 
-end Txdbus.Msg
+/-- Where a field of `specFieldsOf` comes from. -/
+theorem specFieldsOf_mem (attrs : Attr → PyVal) :
+    ∀ (tbl : List (Attr × Nat × Bool)) (fs : List Field), specFieldsOf attrs tbl = some fs →
+      ∀ f ∈ fs, ∃ ent ∈ tbl, ∃ w, f.1 = ent.2.1 ∧ attrs ent.1 ≠ .none ∧ wrapAttr ent.1 (attrs ent.1) = .ok w ∧ hvalOf w = some f.2
+  | [], fs, h, f, hf => by simp only [specFieldsOf, Option.some.injEq] at h; subst h; cases hf
+  | (a, code, req) :: rest, fs, h, f, hf => by
+    simp only [specFieldsOf] at h
+    by_cases hn : isNone (attrs a) = true
+    · rw [if_pos hn] at h
+      obtain ⟨ent, he, w, r⟩ := specFieldsOf_mem attrs rest fs h f hf
+      exact ⟨ent, List.mem_cons_of_mem _ he, w, r⟩
+    · rw [if_neg hn] at h
+      have hne : attrs a ≠ .none := fun hh => hn ((isNone_iff _).mpr hh)
+      cases hw : wrapAttr a (attrs a) with
+      | error x => rw [hw] at h; cases h
+      | ok w =>
+        rw [hw] at h
+        dsimp only at h
+        cases hh : hvalOf w with
+        | none => rw [hh] at h; cases h
+        | some hv =>
+          cases hr : specFieldsOf attrs rest with
+          | none => rw [hh, hr] at h; cases h
+          | some fs' =>
+            rw [hh, hr] at h
+            simp only [Option.some.injEq] at h
+            subst h
+            cases hf with
+            | head => exact ⟨(a, code, req), List.mem_cons_self, w, rfl, hne, hw, hh⟩
+            | tail _ hf =>
+              obtain ⟨ent, he, w', r⟩ := specFieldsOf_mem attrs rest fs' hr f hf
+              exact ⟨ent, List.mem_cons_of_mem _ he, w', r⟩
 
+/-- Every non-None entry of the table has its field. -/
+theorem specFieldsOf_has (attrs : Attr → PyVal) :
+    ∀ (tbl : List (Attr × Nat × Bool)) (fs : List Field), specFieldsOf attrs tbl = some fs →
+      ∀ ent ∈ tbl, attrs ent.1 ≠ .none → ∃ f ∈ fs, ∃ w, f.1 = ent.2.1 ∧ wrapAttr ent.1 (attrs ent.1) = .ok w ∧ hvalOf w = some f.2
+  | [], _, _, ent, he, _ => by cases he
+  | (a, code, req) :: rest, fs, h, ent, he, hne => by
+    simp only [specFieldsOf] at h
+    by_cases hn : isNone (attrs a) = true
+    · rw [if_pos hn] at h
+      cases he with
+      | head => exact absurd ((isNone_iff _).mp hn) hne
+      | tail _ he => exact specFieldsOf_has attrs rest fs h ent he hne
+    · rw [if_neg hn] at h
+      cases hw : wrapAttr a (attrs a) with
+      | error x => rw [hw] at h; cases h
+      | ok w =>
+        rw [hw] at h
+        dsimp only at h
+        cases hh : hvalOf w with
+        | none => rw [hh] at h; cases h
+        | some hv =>
+          cases hr : specFieldsOf attrs rest with
+          | none => rw [hh, hr] at h; cases h
+          | some fs' =>
+            rw [hh, hr] at h
+            simp only [Option.some.injEq] at h
+            subst h
+            cases he with
+            | head => exact ⟨(code, hv), List.mem_cons_self, w, rfl, hw, hh⟩
+            | tail _ he =>
+              obtain ⟨f, hf, w', r⟩ := specFieldsOf_has attrs rest fs' hr ent he hne
+              exact ⟨f, List.mem_cons_of_mem _ hf, w', r⟩
+
+theorem hvalOf_ty_ne_h (w : PyVal) (hv : HVal) (h : hvalOf w = some hv) : hv.ty ≠ .h := by
+  cases w <;> simp only [hvalOf] at h <;> try (cases h; done)
+  · rename_i cls n
+    cases cls <;> simp only [Option.some.injEq] at h <;> try (cases h; done)
+    all_goals (subst h; simp [HVal.ty])
+  · rename_i cls s
+    cases cls <;> simp only [Option.some.injEq] at h <;> subst h <;> simp [HVal.ty]
+
+theorem specFieldsOf_noH (attrs : Attr → PyVal) (tbl : List (Attr × Nat × Bool)) (fs : List Field)
+    (h : specFieldsOf attrs tbl = some fs) (f : Field) (hf : f ∈ fs) (hty : f.2.ty = .h) : False := by
+  obtain ⟨ent, _, w, _, _, _, hh⟩ := specFieldsOf_mem attrs tbl fs h f hf
+  exact hvalOf_ty_ne_h w f.2 hh hty
+
+end Txdbus.Msg
